@@ -111,6 +111,33 @@ def single_def(fa, name, at):
     return None
 
 
+def _creating(ds):
+    """reaching definitions without the in-place ones (`m |= other` changes the mapping `m` names, it does not
+    make it name another one)"""
+    return [d for d in ds if not (d.kind == "aug" and isinstance(getattr(d.stmt, "op", None), ast.BitOr))]
+
+
+class CaseDef:
+    """One arm of a definition whose value is a conditional expression: the definition, taken under `guard`
+    (literals as FA._atoms gives them)."""
+    __slots__ = ("node", "name", "value", "kind", "stmt", "guard")
+
+    def __init__(self, d, arm, value, guard):
+        self.node, self.name, self.kind, self.stmt = d.node, "%s#%s" % (d.name, arm), d.kind, d.stmt
+        self.value, self.guard = value, tuple(getattr(d, "guard", ())) + tuple(guard)
+
+
+def case_conds(fa, d):
+    """the conditions under which definition `d` (a Def or one arm of it) is made"""
+    out = set()
+    extra = canon_conj(getattr(d, "guard", ()))
+    for c in conds(fa, d.node):
+        lits = set(c) | set(extra)
+        if not any((t, not p) in lits for (t, p) in lits):
+            out.add(frozenset(lits))
+    return out
+
+
 def origin(fa, expr, at, _seen=frozenset()):
     """The definition that created the object `expr` denotes at CFG node `at`: plain aliases (locals and
     fields of self, casts) are followed back; several reaching assignments are fine as long as they all lead
@@ -118,7 +145,7 @@ def origin(fa, expr, at, _seen=frozenset()):
     nm = _ref_name(strip_cast(expr))
     if nm is None:
         return None
-    ds = fa.df.reaching(at, nm)
+    ds = _creating(fa.df.reaching(at, nm))
     if not ds or any(d.kind != "assign" or d.value is None for d in ds):
         return None
     res = []
@@ -132,6 +159,73 @@ def origin(fa, expr, at, _seen=frozenset()):
 
 def same_def(a, b):
     return a is not None and b is not None and (a.node, a.name) == (b.node, b.name)
+
+
+def origins(fa, expr, at, _seen=frozenset()):
+    """Like `origin`, for an object that is created in one of several places depending on the path (one
+    definition per case, early returns of a flattened helper): the list of creating definitions (no
+    duplicates); None if `expr` is not a plain name / field of self or some chain does not end in an assignment."""
+    nm = _ref_name(strip_cast(expr))
+    if nm is None:
+        return None
+    ds = _creating(fa.df.reaching(at, nm))
+    if not ds or any(d.kind != "assign" or d.value is None for d in ds):
+        return None
+    out = []
+
+    def arms(d):
+        # a conditional expression creates one object per arm
+        v = strip_cast(d.value)
+        if isinstance(v, ast.IfExp):
+            res = []
+            for (arm, branch, pol) in (("T", v.body, True), ("F", v.orelse, False)):
+                res += arms(CaseDef(d, arm, branch, fa._atoms(v.test, d.node, pol)))
+            return res
+        return [d]
+
+    for d0 in ds:
+        if (d0.node, d0.name) in _seen:
+            return None
+        for d in arms(d0):
+            sub = origins(fa, d.value, d.node, _seen | {(d0.node, d0.name)}) if _ref_name(strip_cast(d.value)) is not None else None
+            for o in (sub if sub is not None else [d]):
+                if not any(same_def(o, x) for x in out):
+                    out.append(o)
+    return out
+
+
+def map_shape(e):
+    """How a mapping is put together by the expression that creates it: (base, items, odd) — `base` the
+    mapping it copies (`R.copy()`, `dict(R)`, `{**R, ...}`, `dict(R, k=v)`, `R | {...}`; None if it starts
+    empty), `items` the [(constant key, value expression)] it adds, `odd` True when something else goes
+    in (a second mapping merged in, a computed key).  None if `e` does not create a mapping."""
+    e = strip_cast(e)
+    src = is_copy_of(e)
+    if src is not None:
+        return (src, [], False)
+    if isinstance(e, ast.Dict):
+        base, items, odd = None, [], False
+        for k, v in zip(e.keys, e.values):
+            if k is None:
+                if base is None and not items:
+                    base = v
+                else:
+                    odd = True
+            elif A.const_str(k) is not None:
+                items.append((A.const_str(k), v))
+            else:
+                odd = True
+        return (base, items, odd)
+    if isinstance(e, ast.Call) and isinstance(e.func, ast.Name) and e.func.id == "dict" and len(e.args) <= 1:
+        items = [(k.arg, k.value) for k in e.keywords if k.arg is not None]
+        odd = any(k.arg is None for k in e.keywords)
+        return (e.args[0] if e.args else None, items, odd)
+    if isinstance(e, ast.BinOp) and isinstance(e.op, ast.BitOr):
+        r = map_shape(e.right)
+        if r is not None and r[0] is None and isinstance(strip_cast(e.right), (ast.Dict, ast.Call)):
+            return (e.left, r[1], r[2])
+        return (e.left, [], True)
+    return None
 
 
 def fexpand(fa, expr, at, depth=14, _stack=()):
@@ -289,9 +383,8 @@ def holds_iff_nonempty(cs, aliases):
     for conj in cs:
         lits = []
         for (t, p) in conj:
-            try:
-                e = ast.parse(t, mode="eval").body
-            except SyntaxError:
+            e = parse_literal(t)
+            if e is None:
                 return False
 
             class R(ast.NodeTransformer):
@@ -362,7 +455,8 @@ class FlatInit:
         self.hash_defs = hd
         self.hash_def = hd[0]
         self.hash_call = None
-        self.hk = None
+        self.hk = None     # the one definition creating the hash input (None if there are several, see hks)
+        self.hks = []      # the definitions creating the hash input, one per case
         if len(hd) == 1 and hd[0].kind == "assign":
             v, at = strip_cast(hd[0].value), hd[0].node
             if _ref_name(v) is not None:
@@ -374,7 +468,8 @@ class FlatInit:
                 self.hash_at = at
                 a = A.arg_or_kw(v, 0, "effective_kwargs")
                 if a is not None:
-                    self.hk = origin(fa, a, at)
+                    self.hks = origins(fa, a, at) or []
+                    self.hk = self.hks[0] if len(self.hks) == 1 else None
         self.ek = self.final("effective_kwargs")
 
     def final(self, field):
@@ -426,6 +521,11 @@ class FlatInit:
     def denotes(self, expr, at, d):
         return same_def(origin(self.fa, expr, at), d)
 
+    def denotes_any(self, expr, at, defs):
+        """`expr` at `at` is, on every path, one of the objects created by `defs`"""
+        os_ = origins(self.fa, expr, at)
+        return bool(os_) and all(any(same_def(o, d) for d in defs) for o in os_)
+
 
 def sibling_reference_sites(ck, rule):
     """C16.R5 / C02.R5: every reference-with-arguments built in base.py whose arg_hash reaches a
@@ -434,7 +534,14 @@ def sibling_reference_sites(ck, rule):
     cls = mod.classes.get("MementoFunctionBase")
     ck.need(cls is not None, "base.MementoFunctionBase not found")
     n_sites = 0
-    for name, m in cls.methods.items():
+    methods = list(cls.methods.items())
+    # private helpers of the class that the front end took out of the tables although a call it could not write out
+    # (inside a comprehension) remains: the construction they contain is still a site
+    for fi in getattr(getattr(ck.repo, "inliner", None), "new", None) or []:
+        if fi.qual.startswith(cls.qual + ".") and fi.name not in cls.methods and fi.parent is None \
+                and any(isinstance(n, ast.Call) and A.call_attr(n) == fi.name for mm in cls.methods.values() for n in A.walk_body(mm.node)):
+            methods.append((fi.name, fi))
+    for name, m in methods:
         fa = FA(ck, m)
         ctors = [c for c in fa.calls("FunctionReferenceWithArguments")] + [c for c in fa.calls("with_args")]
         for c in ctors:
@@ -455,6 +562,17 @@ def sibling_reference_sites(ck, rule):
             ca = A.kwarg(c, "context_args") or A.kwarg(c, RESERVED)
             if ca is None and A.call_attr(c) == "FunctionReferenceWithArguments" and len(c.args) > 3:
                 ca = c.args[3]
+            if ca is None and fa.nodes(c):
+                # handed over inside a spread mapping: with_args(*args, **{**kwargs, KEY: context_args})
+                for k in c.keywords:
+                    if k.arg is None:
+                        try:
+                            sh = map_shape(fa.expand(k.value, fa.nodes(c)[0]))
+                        except AnalysisError:
+                            sh = None
+                        for (kk, vv) in (sh[1] if sh is not None else []):
+                            if kk in (RESERVED, "context_args"):
+                                ca = vv
             ok = False
             if ca is not None:
                 ids = fa.nodes(c)
@@ -493,6 +611,105 @@ def _prevented(t, p):
 
 def _all_unprevented(cs):
     return bool(cs) and all(any(_lit_truth(lit_expr(t, p)[0], lit_expr(t, p)[1], _not_prevented, None) for (t, p) in conj if lit_expr(t, p)[0] is not None) for conj in cs)
+
+
+_UNKNOWN, _RAISES = object(), object()
+
+
+class _Rec:
+    """a model object: the attributes the rule knows about; anything else about it is unknown"""
+    def __init__(self, **kw):
+        self.attrs = kw
+
+
+def _frame_models():
+    return {"none": None,
+            "free": _Rec(recursive_context=_Rec(prevent_further_calls=False)),
+            "prevented": _Rec(recursive_context=_Rec(prevent_further_calls=True))}
+
+
+def _eval_on_frame(e, frame):
+    """Three-valued reading of a guard expression for a given calling frame (None / a frame that allows further
+    calls / one that prevents them): a value, _UNKNOWN (the expression is about something else), or _RAISES (it
+    cannot be evaluated for this frame: attribute of None).  The sub-expression that denotes the calling frame is
+    recognised by its expansion (`FRAME`)."""
+    if A.norm(e) == FRAME:
+        return frame
+    if isinstance(e, ast.Constant):
+        return e.value
+    if isinstance(e, ast.Attribute):
+        b = _eval_on_frame(e.value, frame)
+        if b is _UNKNOWN or b is _RAISES:
+            return b
+        if b is None:
+            return _RAISES
+        if isinstance(b, _Rec):
+            return b.attrs.get(e.attr, _UNKNOWN)
+        return _UNKNOWN
+    if isinstance(e, ast.UnaryOp) and isinstance(e.op, ast.Not):
+        v = _eval_on_frame(e.operand, frame)
+        return v if v is _UNKNOWN or v is _RAISES else (not v)
+    if isinstance(e, ast.BoolOp):
+        is_and = isinstance(e.op, ast.And)
+        unknown = False
+        last = is_and
+        for x in e.values:
+            v = _eval_on_frame(x, frame)
+            if v is _RAISES:
+                return _UNKNOWN if unknown else _RAISES
+            if v is _UNKNOWN:
+                unknown = True
+                continue
+            last = v
+            if bool(v) != is_and:
+                return v        # decides the whole expression (an unknown operand before it could only have done the same)
+        return _UNKNOWN if unknown else last
+    if isinstance(e, ast.IfExp):
+        t = _eval_on_frame(e.test, frame)
+        if t is _UNKNOWN or t is _RAISES:
+            return t
+        return _eval_on_frame(e.body if t else e.orelse, frame)
+    if isinstance(e, ast.Call) and isinstance(e.func, ast.Name) and e.func.id == "bool" and len(e.args) == 1 and not e.keywords:
+        v = _eval_on_frame(e.args[0], frame)
+        return v if v is _UNKNOWN or v is _RAISES else bool(v)
+    if isinstance(e, ast.Compare) and len(e.ops) == 1 and isinstance(e.ops[0], (ast.Is, ast.IsNot, ast.Eq, ast.NotEq)):
+        l, r = _eval_on_frame(e.left, frame), _eval_on_frame(e.comparators[0], frame)
+        if l is _RAISES or r is _RAISES:
+            return _RAISES
+        if l is _UNKNOWN or r is _UNKNOWN:
+            return _UNKNOWN
+        same = (l is r) if isinstance(e.ops[0], (ast.Is, ast.IsNot)) or isinstance(l, _Rec) or isinstance(r, _Rec) else (l == r)
+        return same if isinstance(e.ops[0], (ast.Is, ast.Eq)) else not same
+    return _UNKNOWN
+
+
+def parse_literal(t):
+    """The expression a path-condition literal stands for.  FA renders a comparison as '<left> <op> <right>' from the
+    expanded operands without parentheses, so a left operand that is a conditional expression (a local defined by
+    `a if c else b` and then compared) comes back from the parser as `a if c else (b <op> right)`; the comparison
+    is put back around the conditional expression."""
+    try:
+        e = ast.parse(t, mode="eval").body
+    except SyntaxError:
+        return None
+    if isinstance(e, ast.IfExp) and isinstance(e.orelse, ast.Compare) and len(e.orelse.ops) == 1 and not isinstance(e.orelse.left, ast.IfExp):
+        c = e.orelse
+        return ast.fix_missing_locations(ast.Compare(left=ast.IfExp(test=e.test, body=e.body, orelse=c.left), ops=c.ops, comparators=c.comparators))
+    return e
+
+
+def _feasible_for(conj, frame):
+    """can a path with these branch literals be taken when the calling frame is `frame`?"""
+    for (t, p) in conj:
+        e = parse_literal(t)
+        if e is None:
+            continue
+        v = _eval_on_frame(e, frame)
+        if v is _RAISES:
+            return False
+        if v is not _UNKNOWN and bool(v) != p:
+            return False
+    return True
 
 
 def _default_or(fa, e, at, param, default):
@@ -538,14 +755,30 @@ def check(ck):
     fl = FlatInit(ck)
     init = fl.fa
     HK_Q = FRA + "._compute_effective_kwargs_with_context_args"
-    hk, ek = fl.hk, fl.ek
-    stores = []
+    hks, ek = fl.hks, fl.ek
+    # where the reserved key is put on a mapping: subscript stores, and entries of the expression that creates the
+    # hash input (`{**effective, KEY: context_args}`, `dict(effective, KEY=context_args)`, ...), one per case
+    stores = []     # (statement, mapping expression, value expression)
     for s in init.stmts(ast.Assign):
         for t in s.targets:
             if isinstance(t, ast.Subscript) and A.const_str(init.expand(t.slice, init.nodes(s)[0]) if init.nodes(s) else t.slice) == RESERVED:
-                stores.append((s, t))
-    ok = hk is not None and len(stores) >= 1
-    where_r = init.where(stores[0][0]) if stores else init.where()
+                stores.append((s, t.value, s.value))
+    for s in init.stmts(ast.Expr):
+        c = s.value
+        if not (isinstance(c, ast.Call) and isinstance(c.func, ast.Attribute) and init.nodes(s)):
+            continue
+        if c.func.attr in ("__setitem__", "setdefault") and len(c.args) == 2 and A.const_str(init.expand(c.args[0], init.nodes(s)[0])) == RESERVED:
+            stores.append((s, c.func.value, c.args[1]))
+        elif c.func.attr == "update":
+            # m.update({KEY: v}) / m.update(KEY=v)
+            sh = map_shape(c.args[0]) if len(c.args) == 1 and not c.keywords else ((None, [(k.arg, k.value) for k in c.keywords if k.arg], False) if not c.args else None)
+            if sh is not None and sh[0] is None:
+                stores += [(s, c.func.value, v) for (k, v) in sh[1] if k == RESERVED]
+    shapes = [(d, map_shape(d.value)) for d in hks]
+    inline = [(d, v) for (d, sh) in shapes if sh is not None for (k, v) in sh[1] if k == RESERVED]
+    n_sites = len(stores) + len(inline)
+    ok = bool(hks) and n_sites >= 1 and not any(sh is not None and sh[2] for (d, sh) in shapes)
+    where_r = init.where(stores[0][0]) if stores else (init.where(inline[0][0].stmt) if inline and inline[0][0].stmt is not None else init.where())
     if ok:
         ca_txt = {"self.context_args"}
         ds = init.df.reaching(fl.exit, "self.context_args")
@@ -562,25 +795,41 @@ def check(ck):
             # the raw argument is empty exactly when its normalised form is
             ca_txt |= raw
         base = conds(init, fl.hash_def.node)
-        for (s, t) in stores:
+        after_hash = init.cfg.reach([fl.hash_at], include_start=False)
+        cs = set()
+        for (s, m, v) in stores:
             at = init.nodes(s)[0]
             # on the hash input, holding the (normalised) context args
-            ok = ok and fl.denotes(t.value, at, hk)
-            ok = ok and fl.reads_final(s.value, at, "context_args")
+            ok = ok and fl.denotes_any(m, at, hks)
+            ok = ok and fl.reads_final(v, at, "context_args")
             # before the hash is taken
-            ok = ok and not (set(init.nodes(s)) & init.cfg.reach([fl.hash_at], include_start=False)) and fl.hash_at in init.cfg.reach(init.nodes(s))
-        # exactly when non-empty
-        cs = set()
-        for (s, t) in stores:
+            ok = ok and not (set(init.nodes(s)) & after_hash) and fl.hash_at in init.cfg.reach(init.nodes(s))
             cs |= relative(conds(init, s), base)
+        for (d, v) in inline:
+            ok = ok and fl.reads_final(v, d.node, "context_args")
+            ok = ok and d.node not in after_hash and fl.hash_at in init.cfg.reach([d.node])
+            cs |= relative(case_conds(init, d), base)
+        # exactly when non-empty
         ok = ok and holds_iff_nonempty(cs, ca_txt)
     ck.ob(R1, HK_Q + "::reserved-key", bool(ok), "context args enter the hash under %r iff non-empty" % RESERVED if ok else
           "context args are not added to the hash input under %r exactly when non-empty" % RESERVED, where_r)
-    src = is_copy_of(hk.value) if hk is not None else None
-    okc = src is not None and ek is not None and not same_def(hk, ek) and fl.denotes(src, hk.node, ek)
+    # every case of the hash input starts from a copy of the finished effective kwargs
+    okc = bool(hks) and ek is not None
+    # (a case in which the hash input is the effective kwargs themselves is as good as a copy as long as the reserved
+    # key is never stored on a mapping that may be them)
+    leaky = any(any(same_def(o, ek) for o in (origins(init, m, init.nodes(s)[0]) or [ek])) for (s, m, v) in stores)
+    n_copies = 0
+    for (d, sh) in shapes:
+        if same_def(d, ek):
+            okc = okc and not leaky
+            continue
+        n_copies += 1
+        okc = okc and sh is not None and sh[0] is not None and fl.denotes(sh[0], d.node, ek)
+    okc = okc and n_copies >= 1
     if okc:
         # the copy is taken from the finished mapping, and the reserved key never lands in the mapping the body receives
         ek_names = fl.aliases_of(ek)
+        after_copy = init.cfg.reach([d.node for d in hks if not same_def(d, ek)], include_start=False)
         for s in init.stmts((ast.Assign, ast.AugAssign, ast.Expr)):
             ids = init.nodes(s)
             if not ids:
@@ -588,23 +837,30 @@ def check(ck):
             muts = []
             if isinstance(s, ast.Assign):
                 muts = [t.value for t in s.targets if isinstance(t, ast.Subscript)]
+            elif isinstance(s, ast.AugAssign):
+                muts = [s.target.value] if isinstance(s.target, ast.Subscript) else ([s.target] if isinstance(s.op, ast.BitOr) else [])
             elif isinstance(s, ast.Expr) and isinstance(s.value, ast.Call) and A.call_attr(s.value) in ("update", "setdefault", "pop", "clear", "popitem", "__setitem__"):
                 muts = [A.call_recv(s.value)] if A.call_recv(s.value) is not None else []
             for m in muts:
-                if _ref_name(m) in ek_names and fl.denotes(m, ids[0], ek) and set(ids) & init.cfg.reach([hk.node], include_start=False):
+                if _ref_name(m) in ek_names and fl.denotes(m, ids[0], ek) and set(ids) & after_copy:
                     okc = False
+    hk0 = hks[0] if hks else None
     ck.ob(R1, HK_Q + "::copy", bool(okc), "the hash input is a copy: effective_kwargs itself stays free of context args" if okc else
-          "the hash input is not a copy of effective_kwargs (context args would leak into the body's parameters)", init.where(hk.stmt) if hk is not None and hk.stmt is not None else init.where())
+          "the hash input is not a copy of effective_kwargs (context args would leak into the body's parameters)", init.where(hk0.stmt) if hk0 is not None and hk0.stmt is not None else init.where())
     ah = fl.hash_def.stmt
-    okh = fl.hash_call is not None and hk is not None and len(stores) >= 1 and all(fl.denotes(t.value, init.nodes(s)[0], hk) for (s, t) in stores)
+    okh = fl.hash_call is not None and bool(hks) and n_sites >= 1 and all(fl.denotes_any(m, init.nodes(s)[0], hks) for (s, m, v) in stores)
     ck.ob(R1, init.key(ah), okh, "arg_hash = hash(effective kwargs + context args)" if okh else
           "arg_hash is not computed from effective_kwargs_with_context_args", init.where(ah))
     rl = FA(ck, "runner_local.memento_run_local")
     body = rl.one(rl.calls("_filter_call"), "_filter_call (function body) call")
     p_ref = "fn_reference_with_args" if "fn_reference_with_args" in rl.fi.params else (rl.fi.params[1] if len(rl.fi.params) > 1 else "")
-    okb = not body.args and len(body.keywords) == 1 and body.keywords[0].arg is None and \
-        rl.xnorm(body.keywords[0].value, rl.nodes(body)[0]) == p_ref + ".effective_kwargs" and \
-        all(d.kind == "param" for d in rl.df.reaching(rl.nodes(body)[0], p_ref))
+    okb = not body.args and len(body.keywords) == 1 and body.keywords[0].arg is None
+    if okb:
+        # what is spread into the call: the effective kwargs themselves or a plain copy of them
+        e_ = strip_cast(rl.expand(body.keywords[0].value, rl.nodes(body)[0]))
+        while is_copy_of(e_) is not None:
+            e_ = strip_cast(is_copy_of(e_))
+        okb = A.norm(e_) == p_ref + ".effective_kwargs" and all(d.kind == "param" for d in rl.df.reaching(rl.nodes(body)[0], p_ref))
     ck.ob(R1, rl.key(body, "body-args"), okb, "the body receives exactly the effective kwargs (no context args)" if okb else
           "the body is not called with **fn_reference_with_args.effective_kwargs", rl.where(body))
 
@@ -651,6 +907,7 @@ def check(ck):
         at = rb.nodes(c)[0]
         par = rb.pm.get(c)
         cv = src = None
+        made, heads = [], []
         through = []      # nodes every inheriting path must pass: where the list is rebuilt
         holders = set()   # (node, name) definitions that hold the rebuilt list
         if isinstance(par, (ast.ListComp, ast.GeneratorExp)) and par.elt is c and len(par.generators) == 1 and not par.generators[0].ifs \
@@ -664,6 +921,8 @@ def check(ck):
                 cv, src = par.generators[0].target.id, par.generators[0].iter
                 through = rb.nodes(st)
                 holders = {(i, st.targets[0].id) for i in rb.nodes(st)}
+                made = [d_ for i in rb.nodes(st) for d_ in rb.df.gen.get(i, []) if d_.name == st.targets[0].id]
+                heads = through
         elif isinstance(par, ast.Call) and A.call_attr(par) == "append" and par.args == [c] and isinstance(A.call_recv(par), ast.Name):
             st = rb.stmt_of(c)
             loop = rb.enclosing(st, (ast.For, ast.While))
@@ -676,10 +935,13 @@ def check(ck):
                     cv, src = loop.target.id, loop.iter
                     through = heads
                     holders = {(ld.node, lname)}
-                    for s in rb.stmts(ast.Assign):
-                        if len(s.targets) == 1 and isinstance(s.targets[0], ast.Name) and rb.nodes(s) and isinstance(s.value, ast.Name) \
-                                and same_def(origin(rb, s.value, rb.nodes(s)[0]), ld) and set(rb.nodes(s)) & rb.cfg.reach(heads, include_start=False):
-                            holders |= {(i, s.targets[0].id) for i in rb.nodes(s)}
+                    made = [ld]
+        if cv is not None and made:
+            # other names the rebuilt list is handed on under (`refs = rebuilt`)
+            for s in rb.stmts(ast.Assign):
+                if len(s.targets) == 1 and isinstance(s.targets[0], ast.Name) and rb.nodes(s) and isinstance(strip_cast(s.value), ast.Name) \
+                        and any(same_def(origin(rb, s.value, rb.nodes(s)[0]), m_) for m_ in made) and set(rb.nodes(s)) & rb.cfg.reach(heads, include_start=False):
+                    holders |= {(i, s.targets[0].id) for i in rb.nodes(s)}
         ok3 = cv is not None and isinstance(src, ast.Name) and src.id == P_REFS and all(d.kind == "param" for d in rb.df.reaching(through[0], P_REFS))
         if ok3:
             a = [A.arg_or_kw(c, i, n) for i, n in enumerate(("fn_reference", "args", "kwargs", "context_args"))]
@@ -727,7 +989,9 @@ def check(ck):
                     continue
                 if isinstance(n, ast.Call) and A.call_attr(n) == "update" and "context_args" in A.norm(A.call_recv(n)):
                     merges.append((fi, n))
-                if isinstance(n, ast.Dict) and any(k is None for k in n.keys) and sum(1 for v in n.values if "context_args" in A.norm(v)) >= 1 and len(n.values) > 1:
+                # a display that pours a context-args mapping in together with something else ({**a.context_args, **b} /
+                # {**a.context_args, 'k': v}); context args stored as ONE value under a key are not a merge
+                if isinstance(n, ast.Dict) and len(n.values) > 1 and any(k is None and "context_args" in A.norm(v) for k, v in zip(n.keys, n.values)):
                     merges.append((fi, n))
                 if isinstance(n, ast.BinOp) and isinstance(n.op, ast.BitOr) and "context_args" in A.norm(n.left) and "context_args" in A.norm(n.right):
                     merges.append((fi, n))
@@ -738,19 +1002,55 @@ def check(ck):
     ru = FA(ck, "context.RecursiveContext.update")
     rp = ru.fi.params
     oku = False
-    st = [s for s in ru.stmts(ast.Assign) if any(isinstance(t, ast.Subscript) and isinstance(t.value, ast.Attribute) and t.value.attr == "__dict__" for t in s.targets)]
-    if len(st) == 1 and len(st[0].targets) == 1 and len(rp) >= 3 and ru.nodes(st[0]):
-        t = st[0].targets[0]
-        at = ru.nodes(st[0])[0]
-        obj = origin(ru, t.value.value, at)
-        oku = ru.xnorm(t.slice, at) == rp[1] and ru.xnorm(st[0].value, at) == rp[2] and obj is not None and isinstance(strip_cast(obj.value), ast.Call) \
-            and A.root_name(t.value.value) != "self"
+    # where one entry of an object's __dict__ is set: (statement, object, key expr, value expr) —
+    # obj.__dict__[k] = v / obj.__dict__.update({k: v}) / obj.__dict__.__setitem__(k, v) / object.__setattr__(obj, k, v)
+    def dict_of(e):
+        """the object whose attribute dictionary `e` is: X.__dict__ / vars(X); else None"""
+        e = strip_cast(e)
+        if isinstance(e, ast.Attribute) and e.attr == "__dict__":
+            return e.value
+        if isinstance(e, ast.Call) and isinstance(e.func, ast.Name) and e.func.id == "vars" and len(e.args) == 1 and not e.keywords:
+            return e.args[0]
+        return None
+
+    sets = []
+    for s in ru.stmts((ast.Assign, ast.Expr)):
+        if not ru.nodes(s):
+            continue
+        if isinstance(s, ast.Assign):
+            for t in s.targets:
+                if isinstance(t, ast.Subscript) and dict_of(t.value) is not None:
+                    sets.append((s, dict_of(t.value), t.slice, s.value))
+            continue
+        c = s.value
+        if not isinstance(c, ast.Call):
+            continue
+        recv = A.call_recv(c)
+        owner = dict_of(recv) if recv is not None else None
+        if owner is not None and A.call_attr(c) == "update" and len(c.args) == 1 and not c.keywords and isinstance(c.args[0], ast.Dict) \
+                and len(c.args[0].keys) == 1 and c.args[0].keys[0] is not None and A.norm(owner) != "self":
+            sets.append((s, owner, c.args[0].keys[0], c.args[0].values[0]))
+        elif owner is not None and A.call_attr(c) == "__setitem__" and len(c.args) == 2:
+            sets.append((s, owner, c.args[0], c.args[1]))
+        elif A.norm(c.func) == "object.__setattr__" and len(c.args) == 3:
+            sets.append((s, c.args[0], c.args[1], c.args[2]))
+    if len(sets) == 1 and len(rp) >= 3:
+        (s0, o_expr, k_expr, v_expr) = sets[0]
+        at = ru.nodes(s0)[0]
+        obj = origin(ru, o_expr, at)
+        oku = ru.xnorm(k_expr, at) == rp[1] and ru.xnorm(v_expr, at) == rp[2] and obj is not None and isinstance(strip_cast(obj.value), ast.Call) \
+            and A.root_name(o_expr) != "self"
         if oku:
             mk = strip_cast(obj.value)
-            copied = (A.call_attr(mk) in ("copy", "deepcopy") and "self" in A.names_in(mk)) or \
-                any(A.call_attr(c_) == "update" and A.norm(c_.args[0] if c_.args else None) == "self.__dict__" and ru.nodes(c_)
-                    and same_def(origin(ru, A.call_recv(c_).value, ru.nodes(c_)[0]) if isinstance(A.call_recv(c_), ast.Attribute) else None, obj)
-                    for c_ in ru.calls("update"))
+
+            def pours_self_in(c_):
+                # <the new object's dict>.update(<self's dict>), before the entry is set
+                owner_ = dict_of(A.call_recv(c_)) if A.call_recv(c_) is not None else None
+                src_ = dict_of(c_.args[0]) if len(c_.args) == 1 and not c_.keywords else None
+                return owner_ is not None and src_ is not None and A.norm(src_) == "self" and bool(ru.nodes(c_)) \
+                    and same_def(origin(ru, owner_, ru.nodes(c_)[0]), obj) and at in ru.cfg.reach(ru.nodes(c_), include_start=False)
+
+            copied = (A.call_attr(mk) in ("copy", "deepcopy") and "self" in A.names_in(mk)) or any(pours_self_in(c_) for c_ in ru.calls("update"))
             rets = ru.returns()
             oku = copied and bool(rets) and all(r.value is not None and same_def(origin(ru, r.value, ru.nodes(r)[0]), obj) for r in rets if ru.nodes(r))
     ck.ob(R2, ru.key(None, "replace"), oku, "update() replaces the field on a copy" if oku else
@@ -836,6 +1136,20 @@ def check(ck):
             cs = conds(rb, rb.nodes(r)[0])
             if cs and all(any(_lit_truth(lit_expr(t, p)[0], lit_expr(t, p)[1], _prevented, None) for (t, p) in conj if lit_expr(t, p)[0] is not None) for conj in cs):
                 ok4 = True
+    if not ok4 and all_dn:
+        # the same clause with the guards read for each kind of calling frame: with a frame that prevents further
+        # calls no path reaches the dispatch or the normal exit, and a RuntimeError is raised for such a frame only
+        M = _frame_models()
+        reach_ = [c for dn in all_dn for c in conds(rb, dn)]
+        ex = rb.conditions(rb.cfg.exit)
+        reach_ += [canon_conj(c) for c in (ex or [])]
+        ok4 = not any(_feasible_for(c, M["prevented"]) for c in reach_)
+        if ok4:
+            ok4 = False
+            for r in [r for r in rb.stmts(ast.Raise) if r.exc is not None and rb.nodes(r) and A.norm(r.exc.func if isinstance(r.exc, ast.Call) else r.exc) == "RuntimeError"]:
+                cs = conds(rb, rb.nodes(r)[0])
+                if cs and any(_feasible_for(c, M["prevented"]) for c in cs) and not any(_feasible_for(c, M["none"]) or _feasible_for(c, M["free"]) for c in cs):
+                    ok4 = True
     ck.ob(R4, rb.key(None, "prevent-dominates-dispatch"), ok4, "a prevented call raises before anything is dispatched" if ok4 else
           "the prevent_further_calls check does not dominate the dispatch to the runner", rb.where())
 
